@@ -245,4 +245,3 @@ func TestVerifC09(t *testing.T) {
 	}
 	out.Close("C09.Check", "")
 }
-
